@@ -563,7 +563,7 @@ def t_fetch_helpers(world, prefix='C09.j'):
             oa = [e for e in Ev if re.search(r'oracle_accounts_for_bank$', e[1])]; tb = [e for e in Ev if re.search(r'try_from_bank$', e[1])]
             gp = [e for e in Ev if re.search(r'::get_price\w*$', e[1])]
             if len(oa) != 1 or len(tb) != 1 or len(gp) != 1:
-                ob.structural(f'calls on an accepting path: {[short(e[1]) for e in Ev]}', 'fetch-shape'); continue
+                ob.shape(min(len(oa), len(tb), len(gp)), 1, f'calls on an accepting path: {[short(e[1]) for e in Ev]}', 'fetch-shape'); continue
             ob.queries += 1
             if re.search(getter, gp[0][1]): ob.unsat += 1
             else: ob.sat += 1; ob.cex.append({'ob': ob.oid, 'label': f'the price is read through {short(gp[0][1])} (the confidence limit is not enforced on this path)', 'role': 'fetch-getter', 'model': {}, 'replay': None}); continue
@@ -602,7 +602,7 @@ def t_oracle_accounts_for_bank(world, oid='C09.j.oracle_accounts_for_bank'):
         Ev = [e for e in flat_events(r['events']) if e[0] == 'call']
         cnt = [e for e in Ev if re.search(r'get_remaining_accounts_per_bank$', e[1])]
         sl = [e for e in Ev if re.search(r'::index$', e[1])]
-        if len(cnt) != 1 or len(sl) != 1: ob.structural('count / slice calls missing', 'locate-shape'); continue
+        if len(cnt) != 1 or len(sl) != 1: ob.shape(min(len(cnt), len(sl)), 1, 'count / slice calls missing', 'locate-shape'); continue
         n = cnt[0][3].payload[0][0].e
         rg = eng.deref_val(sl[0][2][1]); st_, en_ = rg.fields.get('start', rg.fields.get(0)).e, rg.fields.get('end', rg.fields.get(1)).e
         key = lambda i: z3.Int(f'ais*[{i}].0*'); ln = z3.Int('ais*.len'); bkey = eng.deref_val(bk).e
